@@ -1,7 +1,7 @@
 import sys, os, traceback
 sys.path.insert(0, os.path.dirname(os.path.dirname(os.path.abspath(__file__))))
 
-TEMPLATE_PROPS = ('C03', 'C01', 'C02', 'C04', 'C05', 'C14', 'C08', 'C09', 'C11', 'C12')   # decided on the shared template exploration alone
+TEMPLATE_PROPS = ('C07', 'C03', 'C01', 'C02', 'C04', 'C05', 'C14', 'C08', 'C09', 'C11', 'C12')   # decided on the shared template exploration alone
 
 def main():
     args = sys.argv[1:]
